@@ -9,7 +9,7 @@
            obligations (gen_well_locked, ...) are closed there by vm_compute; here they are fed to part 2. *)
 From Coq Require Import Relations.
 From Relay Require Import Base.Prelude Model.LockIR Proofs.LockIR_proofs Gen.LockGen.
-From Relay Require Import Model.SerialEq Proofs.SerialEq_proofs.
+From Relay Require Model.SerialEq Proofs.SerialEq_proofs.
 
 (* ------------------------------------------------------------------ part 1: generic *)
 Section Generic.
@@ -246,39 +246,39 @@ Section Value.
      (3) per object, the bodies ran in the order of lin and returned what the one-at-a-time execution returns;
      (4) so every operation received exactly the result it receives in the one-at-a-time execution of lin. *)
   Theorem C12_serial_equivalence :
-    forall progs s0 sched (s : @state Lk Op St Res),
-    run lk_eqb upd sched (init progs s0) = Some s -> finished s = true ->
-    (forall i p, nth_error progs i = Some p -> by_thread i (acqs s) = mkcalls i 0 p) /\
-    (forall m, st s m = fst (serial lk_eqb upd (acqs s) s0) m) /\
-    (forall m, ret_on lk_eqb m (hist s) = ret_on lk_eqb m (snd (serial lk_eqb upd (acqs s) s0))) /\
-    (forall x, In x (hist s) <-> In x (snd (serial lk_eqb upd (acqs s) s0))).
-  Proof. exact (serial_equivalence lk_eqb lk_eqb_spec upd). Qed.
+    forall progs s0 sched (s : @SerialEq.state Lk Op St Res),
+    SerialEq.run lk_eqb upd sched (SerialEq.init progs s0) = Some s -> SerialEq.finished s = true ->
+    (forall i p, nth_error progs i = Some p -> SerialEq.by_thread i (SerialEq.acqs s) = SerialEq.mkcalls i 0 p) /\
+    (forall m, SerialEq.st s m = fst (SerialEq.serial lk_eqb upd (SerialEq.acqs s) s0) m) /\
+    (forall m, SerialEq.ret_on lk_eqb m (SerialEq.hist s) = SerialEq.ret_on lk_eqb m (snd (SerialEq.serial lk_eqb upd (SerialEq.acqs s) s0))) /\
+    (forall x, In x (SerialEq.hist s) <-> In x (snd (SerialEq.serial lk_eqb upd (SerialEq.acqs s) s0))).
+  Proof. exact (SerialEq_proofs.serial_equivalence lk_eqb lk_eqb_spec upd). Qed.
 
   (* with the linearization point at the body instead of the Acq, at EVERY moment (not only at the end) the
      objects and the history are literally those of the one-at-a-time execution of the bodies applied so far *)
   Theorem C12_serial_equivalence_body_order :
-    forall progs s0 sched (s : @state Lk Op St Res),
-    run lk_eqb upd sched (init progs s0) = Some s ->
-    (forall m, st s m = fst (serial lk_eqb upd (map fst (hist s)) s0) m) /\
-    hist s = snd (serial lk_eqb upd (map fst (hist s)) s0).
-  Proof. exact (serial_equivalence_body_order lk_eqb lk_eqb_spec upd). Qed.
+    forall progs s0 sched (s : @SerialEq.state Lk Op St Res),
+    SerialEq.run lk_eqb upd sched (SerialEq.init progs s0) = Some s ->
+    (forall m, SerialEq.st s m = fst (SerialEq.serial lk_eqb upd (map fst (SerialEq.hist s)) s0) m) /\
+    SerialEq.hist s = snd (SerialEq.serial lk_eqb upd (map fst (SerialEq.hist s)) s0).
+  Proof. exact (SerialEq_proofs.serial_equivalence_body_order lk_eqb lk_eqb_spec upd). Qed.
 
   (* locality (Herlihy-Wing): what a one-at-a-time execution does to the object of m and returns to the operations
      on m depends only on the operations on m and their order - sections on different locks commute. Hence ANY total
      order that agrees with the per-object orders is as good as lin: per-object linearizability composes. *)
   Theorem C12_serial_locality :
-    forall m (l1 l2 : list (@call Lk Op)) (s0 : Lk -> St),
-    on_lock lk_eqb m l1 = on_lock lk_eqb m l2 ->
-    fst (serial lk_eqb upd l1 s0) m = fst (serial lk_eqb upd l2 s0) m /\
-    ret_on lk_eqb m (snd (serial lk_eqb upd l1 s0)) = ret_on lk_eqb m (snd (serial lk_eqb upd l2 s0)).
-  Proof. exact (serial_locality lk_eqb lk_eqb_spec upd). Qed.
+    forall m (l1 l2 : list (@SerialEq.call Lk Op)) (s0 : Lk -> St),
+    SerialEq.on_lock lk_eqb m l1 = SerialEq.on_lock lk_eqb m l2 ->
+    fst (SerialEq.serial lk_eqb upd l1 s0) m = fst (SerialEq.serial lk_eqb upd l2 s0) m /\
+    SerialEq.ret_on lk_eqb m (snd (SerialEq.serial lk_eqb upd l1 s0)) = SerialEq.ret_on lk_eqb m (snd (SerialEq.serial lk_eqb upd l2 s0)).
+  Proof. exact (SerialEq_proofs.serial_locality lk_eqb lk_eqb_spec upd). Qed.
 
   Theorem C12_value_at_most_one_holder :
-    forall progs s0 sched (s : @state Lk Op St Res) i j ti tj m,
-    run lk_eqb upd sched (init progs s0) = Some s ->
-    nth_error (thr s) i = Some ti -> nth_error (thr s) j = Some tj ->
-    holdsb lk_eqb m ti = true -> holdsb lk_eqb m tj = true -> i = j.
-  Proof. exact (at_most_one_holder lk_eqb lk_eqb_spec upd). Qed.
+    forall progs s0 sched (s : @SerialEq.state Lk Op St Res) i j ti tj m,
+    SerialEq.run lk_eqb upd sched (SerialEq.init progs s0) = Some s ->
+    nth_error (SerialEq.thr s) i = Some ti -> nth_error (SerialEq.thr s) j = Some tj ->
+    SerialEq.holdsb lk_eqb m ti = true -> SerialEq.holdsb lk_eqb m tj = true -> i = j.
+  Proof. exact (SerialEq_proofs.at_most_one_holder lk_eqb lk_eqb_spec upd). Qed.
 End Value.
 Print Assumptions C12_serial_equivalence.
 Print Assumptions C12_serial_equivalence_body_order.
@@ -291,11 +291,11 @@ Definition ex_upd (_ : nat) (o : N) (s : N) : N * N := ((s + o)%N, s).
 Definition ex_progs : list (list (nat * N)) := [[(0, 1%N); (1, 10%N)]; [(0, 5%N)]; [(1, 7%N); (0, 2%N)]].
 Definition ex_sched : list nat := [0;2;0;2;0;1;2;0;1;0;1;2;0;2;2].
 Example C12_serial_witness :
-  match run Nat.eqb ex_upd ex_sched (init ex_progs (fun _ => 0%N)) with
+  match SerialEq.run Nat.eqb ex_upd ex_sched (SerialEq.init ex_progs (fun _ => 0%N)) with
   | Some s =>
-      (finished s, st s 0, st s 1, map (fun x => (c_tid (fst x), c_lock (fst x), snd x)) (hist s),
-       map (fun c => (c_tid c, c_lock c)) (acqs s),
-       map snd (snd (serial Nat.eqb ex_upd (acqs s) (fun _ => 0%N))))
+      (SerialEq.finished s, SerialEq.st s 0, SerialEq.st s 1, map (fun x => (SerialEq.c_tid (fst x), SerialEq.c_lock (fst x), snd x)) (SerialEq.hist s),
+       map (fun c => (SerialEq.c_tid c, SerialEq.c_lock c)) (SerialEq.acqs s),
+       map snd (snd (SerialEq.serial Nat.eqb ex_upd (SerialEq.acqs s) (fun _ => 0%N))))
   | None => (false, 0%N, 0%N, [], [], [])
   end
   = (true, 8%N, 17%N, [(0, 0, 0%N); (2, 1, 0%N); (1, 0, 1%N); (0, 1, 7%N); (2, 0, 6%N)],
